@@ -59,8 +59,14 @@ class Lab:
         class Facade:
             """What some libraries put into sys.modules in place of a module: an ordinary object (sys.modules[__name__] = Impl())."""
 
+        class Slotted:
+            __slots__ = ()
+
         for m, has_mod, has_builtin, mod_raises, builtin_raises in mods:
             obj = types.ModuleType(self.name(m)) if m % 3 != 2 else Facade()
+            if not has_mod and m % 4 == 3:
+                # entries without any namespace: a blocked import (None) or an object with __slots__
+                obj = None if m % 8 == 3 else Slotted()
             if has_mod:
                 obj._stackscope_install_glue_ = self.mk("mod", m, mod_raises)
             if has_builtin:
